@@ -70,7 +70,7 @@ typedef struct actor {
     volatile int resumes_issued, suspends_returned;
     volatile int pc_at_join, join_seen;
     volatile uint64_t cancel_ret_tick;
-    volatile int suspends_called, resume_rounds_done, seen_terminated, reviving, h_valid, freeing;
+    volatile int suspends_called, resume_rounds_done, seen_terminated, reviving, h_valid, freeing, in_op;
 } actor;
 
 typedef struct {
@@ -97,7 +97,7 @@ typedef struct {
 struct globals {
     /* config */
     uint64_t seed;
-    int strat, pct_d, native, want_hist, mode, drain, leakcheck;
+    int strat, pct_d, native, want_hist, mode, drain, leakcheck, canary;
     unsigned mask, spin;
     uint64_t pct_len, step_limit, tick;
     actor main_a, ext[MAXEXT], unit[MAXU];
